@@ -167,6 +167,43 @@ def r15_4(chk, P):
            'every return is 0 or negative' if not bad else f'a return may yield {bad[0][1]}')
 
 
+R15_5_SCOPE = [
+    # psychoacoustic set-up (float-derived band indices, clamped in the code)
+    '_vp_psy_init', 'setup_tone_curves', '_vp_global_look',
+    # vorbisenc.c helpers whose fixed-extent subscripts do not depend on template data
+    'vorbis_encode_noisebias_setup', 'vorbis_encode_tonemask_setup', 'vorbis_encode_compand_setup', 'vorbis_encode_peak_setup',
+    'vorbis_encode_ath_setup', 'vorbis_encode_global_stereo', 'vorbis_encode_global_psych_setup', 'vorbis_encode_setup_setting',
+    'vorbis_encode_blocksize_setup', 'vorbis_encode_psyset_setup', 'vorbis_encode_setup_init',
+]
+
+
+def r15_5(chk, P):
+    chk.rule('R15.5', 'fixed-extent indexing in encoder set-up code: in the psychoacoustic set-up (_vp_psy_init, setup_tone_curves, '
+             '_vp_global_look) and in the vorbisenc.c helpers whose indices do not depend on template data, the index of every '
+             'subscript of a fixed-extent array is proven within the extent by the K4 value analysis (integer and floating '
+             'intervals: float band positions are followed through their clamps and the float-to-int truncation).  Subscripts '
+             'whose bound is a value stored in a template table (R15.1) are not decided')
+    import k4dec
+    roots = [P.key(P.need(n_)) for n_ in ('vorbis_encode_setup_init', 'vorbis_analysis_init', 'vorbis_encode_setup_vbr',
+                                           'vorbis_encode_setup_managed')]
+    D = k4dec.Driver(P, roots, [], setup_records=set(), state_records=set())
+    D.run(max_rounds=6)
+    n = 0
+    for fn in R15_5_SCOPE:
+        F = P.need(fn)
+        R = D.results.get(P.key(F))
+        chk.require(R is not None and not R.unreached, f'{fn} is not reached from the encoder set-up entry points')
+        sk = {}
+        for st in sorted((s_ for s_ in R.sites if s_['kind'] == 'sub'), key=lambda s_: F.ex[s_['e']].get('loc') or [0, 0]):
+            base = F.s(F.ex[st['e']]['c'][0], names=False)
+            i = sk.get(base, 0)
+            sk[base] = i + 1
+            n += 1
+            chk.ob('R15.5', fn, f'sub:{base}#{i}', st['ok'], st['where'],
+                   st['bound'] if st['ok'] else f'{st["text"]}: {st["bound"]}: not within the extent')
+    return n
+
+
 def run(chk, P):
     r15_2(chk, P)
     chk.floor('R15.2', 8)
@@ -174,6 +211,8 @@ def run(chk, P):
     chk.floor('R15.3', 4)
     r15_4(chk, P)
     chk.floor('R15.4', 10)
+    r15_5(chk, P)
+    chk.floor('R15.5', 150)
     import k4rules
     if hasattr(k4rules, 'c15'):
         k4rules.c15(chk, P)
